@@ -288,7 +288,7 @@ def parse_rvalue(s):
             return Rvalue('adt_tuple', [parse_operand(p) for p in parts], m4.group(1).strip())
         except MirError:
             return Rvalue('unsupported', extra=s)
-    if re.match(r'^[\w:<>, &\'\[\];]+$', s):
+    if re.match(r'^[\w:<>, &\'\[\];\(\)]+$', s) and not s.endswith(')'):
         return Rvalue('adt_tuple', [], s)   # unit-like variant / struct, e.g. `Option::<T>::None`
     return Rvalue('unsupported', extra=s)
 
